@@ -240,7 +240,7 @@ def gen_dsort_case(rng):
         cols['lst'] = [rng.choice([[10, 20], [], {'$t': [1, 2]}, [7]]) for _ in range(n)]       # vector-valued cells are cells
     r = rng.random()
     if r < 0.55:
-        by = {'cols': rng.sample(names, rng.randint(1, len(names))), 'as_list': rng.random() < 0.3}
+        by = {'cols': rng.sample(names, rng.randint(1, len(names))), 'as_list': rng.choice([True, True, 'mixed', False, False, False, False, False, False, False])}      # 'mixed': the first key by itself, the others as a list
     elif r < 0.75:
         by = {'fn': rng.choice(['ident', 'isnone', 'strlen']), 'arg': rng.choice(names)}
     else:
@@ -271,7 +271,7 @@ def run_dsort(case, ctx):
     by = case['by']
     snap0 = core.snap(dict(d))
     if 'cols' in by:
-        call = (lambda t: t.sort(list(by['cols']))) if by.get('as_list') else (lambda t: t.sort(*by['cols']))       # the key columns as separate arguments or as one list: the same keys in the same order
+        call = (lambda t: t.sort(list(by['cols']))) if by.get('as_list') is True else (lambda t: t.sort(by['cols'][0], list(by['cols'][1:]))) if by.get('as_list') == 'mixed' and len(by['cols']) >= 2 else (lambda t: t.sort(*by['cols']))       # the key columns as separate arguments or as one list: the same keys in the same order
         key = lambda r: tuple(r[c] for c in by['cols'])
     elif 'fn' in by:
         f0 = KEYFN[by['fn']]
